@@ -5,7 +5,8 @@ import os, shutil, subprocess, sys, tempfile
 name = sys.argv[1]
 S = tempfile.mkdtemp(prefix="mk-")
 try:
-    subprocess.check_call(["rsync", "-a", "--exclude", "target", "--exclude", ".git", "/repo/purl/", S + "/a/purl/"])
+    os.makedirs(S + "/a")
+    subprocess.check_call(["rsync", "-a", "--exclude", "target", "--exclude", ".git", "/repo/purl", S + "/a/"])
     shutil.copytree(S + "/a", S + "/b")
     args = sys.argv[2:]
     for i in range(0, len(args), 3):
